@@ -531,7 +531,7 @@ func totality(c *vf.Ctx, m mode, phase int) bool {
 			return
 		}
 		if r.err != nil {
-			c.Outcome("error")
+			c.Outcome("error: " + fam)
 			return
 		}
 		detail["returned"] = vf.Hex8(r.payload)
@@ -561,7 +561,7 @@ func totality(c *vf.Ctx, m mode, phase int) bool {
 			viol("returned payload is not padding_length-delimited part of the packet ("+kind+"): "+fam, detail)
 			return
 		}
-		c.Outcome("payload")
+		c.Outcome("payload: " + fam)
 	}
 
 	if phase == 1 {
@@ -752,6 +752,100 @@ func totality(c *vf.Ctx, m mode, phase int) bool {
 				}
 			}
 			c.Nontrivial(fmt.Sprintf("%s/length-sweep/%d", m, l))
+		}
+	}
+	// (f) encrypt-then-MAC specific faults (stream and CBC ciphers with an -etm MAC): the
+	// length is in the clear and the MAC covers seq || length || ciphertext and is verified
+	// before anything is decrypted, so a packet can carry a VALID MAC for any length field and
+	// any ciphertext. Built with the key through the model's raw primitives.
+	if phase == 1 && probe.HasMAC && probe.MAC.ETM {
+		isCBC := m.spec.Kind == sshpkt.KindCBC
+		align := probe.Alignment()
+		be := func(v int) []byte { return []byte{byte(v >> 24), byte(v >> 16), byte(v >> 8), byte(v)} }
+		var ls []int
+		for l := 0; l <= 100; l++ {
+			ls = append(ls, l)
+		}
+		for l := maxPacket - 17; l <= maxPacket+17; l++ {
+			ls = append(ls, l)
+		}
+		tail := c.Bytes("etm-tail", 0, 96)
+		for _, l := range ls {
+			padSet := []int{0, 3, 4, 5, l - 2, l - 1, l, 255}
+			if l > 100 {
+				padSet = []int{4, 255}
+			}
+			seen := map[int]bool{}
+			for _, pad := range padSet {
+				if pad < 0 || pad > 255 || seen[pad] {
+					continue
+				}
+				seen[pad] = true
+				n := (l + 15) / 16 * 16
+				if n == 0 {
+					n = 16
+				}
+				body := c.Bytes("etm-body", l, n)
+				body[0] = byte(pad)
+				cd := mk()
+				ct, err := cd.EncryptRaw(body)
+				if err != nil {
+					viol("harness: model cannot encrypt", map[string]any{"mode": m.String(), "err": err.Error()})
+					return false
+				}
+				ct = ct[:l]
+				// (f1) valid MAC over the clear length and exactly l ciphertext bytes. For CBC this
+				// is a real packet only if l is a non-empty multiple of max(8, block size);
+				// otherwise the reader must refuse it although the MAC is valid.
+				wellFormed := l >= 1 && (!isCBC || l%align == 0)
+				wire := cat(be(l), ct, cd.ComputeMAC(9, be(l), ct))
+				check("EtM: valid MAC over clear length and ciphertext, every length", &budgetReader{data: cat(wire, tail)}, uint32(l), body[:l], wellFormed,
+					map[string]any{"padding_length": pad, "well_formed": wellFormed})
+				if l > 100 || pad != 4 {
+					continue
+				}
+				// (f3) the MAC computed over the wrong input
+				for name, mac := range map[string][]byte{
+					"MAC over plaintext instead of ciphertext": cd.ComputeMAC(9, be(l), body[:l]),
+					"MAC without the length field":             cd.ComputeMAC(9, ct),
+					"MAC with the next sequence number":        cd.ComputeMAC(10, be(l), ct),
+					"MAC over ciphertext of the length field":  cd.ComputeMAC(9, ct[:min(4, l)], ct),
+				} {
+					check("EtM: "+name, &budgetReader{data: cat(be(l), ct, mac, tail)}, uint32(l), body[:l], false, map[string]any{"padding_length": pad})
+				}
+			}
+			c.Nontrivial(fmt.Sprintf("%s/etm-valid-mac/%d", m, l))
+		}
+		// (f2) the clear length field of an authentic packet altered, MAC left alone
+		{
+			body := c.Bytes("etm-body2", 0, 48)
+			body[0] = 8
+			cd := mk()
+			ct, _ := cd.EncryptRaw(body)
+			mac := cd.ComputeMAC(9, be(48), ct)
+			for _, l := range ls {
+				if l == 48 {
+					continue
+				}
+				check("EtM: length field altered, MAC not recomputed", &budgetReader{data: cat(be(l), ct, mac, tail), endless: l > 100, budget: legalMax + 1}, uint32(l), body, false, map[string]any{"original_length": 48})
+			}
+			c.Nontrivial(fmt.Sprintf("%s/etm-length-altered", m))
+		}
+		// (f4) a complete encrypt-and-MAC packet (RFC 4253 framing, same keys and HMAC) fed to
+		// the encrypt-then-MAC reader
+		if plain := strings.TrimSuffix(m.mac, etmSuffix); plain != m.mac {
+			if em, err := sshpkt.New(m.cipher, plain, k.key, k.iv, k.macKey); err == nil {
+				for _, n := range []int{12, 28, 44, 60, 252} {
+					body := sshpkt.Frame(c.Bytes("etm-em", n, n-1-6), make([]byte, 6))
+					wire, err := em.Seal(9, uint32(n), body)
+					if err != nil {
+						continue
+					}
+					em, _ = sshpkt.New(m.cipher, plain, k.key, k.iv, k.macKey)
+					check("EtM: encrypt-and-MAC framed packet", &budgetReader{data: cat(wire, tail), endless: true, budget: legalMax + 1}, 0, body, false, map[string]any{"em_packet_length": n})
+				}
+				c.Nontrivial(fmt.Sprintf("%s/etm-vs-em", m))
+			}
 		}
 	}
 	if phase == 1 && c.WantSample() {
